@@ -159,8 +159,11 @@ pub fn file_in_edit(
                             if n.is_list(){ Some(n.clone()) } 
 
                             else { 
+                                // `edit(file)` or, with a trailing comma, `edit(file,)`
+                                let closes = n.end == end ||
+                                    ( n.comma == Some(n.end) && attr_str[n.end+1..end].trim().is_empty() );
                                 if  n.depth == arg_edit.depth +1 &&
-                                    n.end == end  &&
+                                    closes  &&
                                     arg_edit.open.unwrap() == n.start -1
                                 { 
                                     Some(arg_edit.clone()) 
